@@ -576,6 +576,10 @@ def twins(repo):
         if hasattr(self, 'online_interpreter'):"""))
     A(text_twin('twin-timestamp-through-local', 'rtamt/spec/abstract_specification.py', "            i = args[0]\n            dataset = args[1]\n            return self.online_interpreter.update(i, dataset)",
                 "            timestamp = args[0]\n            i = timestamp\n            dataset = args[1]\n            return self.online_interpreter.update(i, dataset)"))
+    A({'id': 'twin-suffix-fold-helper-right-condition', 'kind': 'twin', 'props': list(ALL), 'edits': [
+        (OFF_D, E.replace("class StlDiscreteTimeOfflineAstVisitor(StlAstVisitor):\n", "def suffix_fold(fn, sample):\n    out = []\n    for val in reversed(sample):\n        out.append(fn(val, out[-1]) if out else val)\n    out.reverse()\n    return out\n\n\nclass StlDiscreteTimeOfflineAstVisitor(StlAstVisitor):\n")),
+        (OFF_D, E.replace("        if sample_len <= end:\n            sample = sample + [float('inf')] * (end - sample_len + 1)\n",
+                          "        tail = sample[begin:]\n        if end - begin >= len(tail) - 1:\n            return (suffix_fold(min, tail) + [float('inf')] * begin)[0:sample_len]\n        if sample_len <= end:\n            sample = sample + [float('inf')] * (end - sample_len + 1)\n"))]})
     A({'id': 'twin-reformat-discrete-interpreter', 'kind': 'twin', 'props': list(ALL), 'edits': [('rtamt/semantics/discrete_time_interpreter.py', _reformat)]})
     return out
 
